@@ -34,7 +34,8 @@ def check_frame(case):
     dt = np.float32 if case.get("dtype") == "float32" else np.float64
     y = np.array(case["y"], dtype=dt)
     n = y.shape[0]
-    X = None if case["X"] is None else np.array(case["X"], dtype=dt).reshape(n, -1)
+    xdt = np.int64 if case.get("xdtype") == "int" else dt
+    X = None if case["X"] is None else np.array(case["X"], dtype=xdt).reshape(n, -1)
     w = None if case["w"] is None else np.array(case["w"], dtype=dt)
     ncol = 0 if X is None else X.shape[1]
     nrow = n - delay2 - past + 2
@@ -143,7 +144,13 @@ def _value_cases(draw, tier="quick"):
         cols = [draw(st.lists(_grid, min_size=n, max_size=n, unique=True)) for _ in range(ncol)]
         X = [[c[t] for c in cols] for t in range(n)]
     w = draw(st.one_of(st.none(), st.lists(st.integers(1, 4000).map(lambda k: k / 8.0), min_size=n, max_size=n, unique=True)))
-    return dict(past=past, delay2=delay2, same_rows=draw(st.booleans()), y=y, X=X, w=w,
+    xdtype = "float"
+    if X is not None and draw(st.integers(0, 3)) == 0:
+        # integer exogenous features next to a float series: the table must still hold the series' values
+        cols = [draw(st.lists(st.integers(-4000, 4000), min_size=n, max_size=n, unique=True)) for _ in range(ncol)]
+        X = [[c[t] for c in cols] for t in range(n)]
+        xdtype = "int"
+    return dict(past=past, delay2=delay2, same_rows=draw(st.booleans()), y=y, X=X, w=w, xdtype=xdtype,
                 dtype=draw(st.sampled_from(["float64", "float32"])))
 
 
